@@ -38,11 +38,11 @@ def gen_cases(rng, tier):
         for s in range(1, top, 3 if not big else 2):
             add('list', n, None, None, False, s)
     # float chunk sizes on a 1/8 grid and random floats >= 1
-    for n in range(0, 40 if not big else 90, 3):
-        for e in range(8, 48, 3 if not big else 1):
+    for n in range(0, 40 if not big else 70, 3):
+        for e in range(8, 48, 3 if not big else 2):
             add(kinds[(n + e) % 3], n, rng.choice([None, n, n + 1, max(0, n - 1)]), bits(e / 8), True, None)
-    for _ in range(150 if not big else 700):
-        n = rng.randrange(0, 400 if not big else 2000)
+    for _ in range(150 if not big else 400):
+        n = rng.randrange(0, 400 if not big else 700)
         r = rng.choice([rng.uniform(1, 9), rng.uniform(1, 60), 1 + rng.random() * 1e-9, float(rng.randrange(1, 9))])
         add(rng.choice(kinds), n, rng.choice([None, None, n, rng.randrange(0, n + 5)]), bits(r), True, None)
     # adversarial n_splits pairs: n / (n / s) rounds up
@@ -64,8 +64,8 @@ def gen_cases(rng, tier):
             add('nd', n, None, k, False, None, numpy_path=True, nj=2)
         add('nd', n, None, bits(1.5 + (n % 5) / 4), True, None, numpy_path=True, nj=2)
         add('nd', n, None, None, False, None, numpy_path=True, nj=1 + n % 4)
-    for _ in range(100 if not big else 500):
-        n = rng.randrange(1, 400 if not big else 3000)
+    for _ in range(100 if not big else 300):
+        n = rng.randrange(1, 400 if not big else 1000)
         add('nd', n, None, None, False, rng.randrange(1, min(n, 60) + 3), numpy_path=True, nj=None)
     return cases
 
